@@ -307,8 +307,11 @@ def slot_reuse_forgets(P, R, rule='C06.MPT.4'):
     for f in P.unit_fns(UNIT):
         for s in f.stores():
             ev = s.ev
+            rhs_ = ev.get('rhs') or {}
+            if is_var(rhs_) and rhs_.get('sc') == 'local' and f.single_def(rhs_['name']):
+                rhs_ = f.single_def(rhs_['name'])[1] or {}       # `bit = 1u << ii; ... mask |= bit`
             if ev['k'] == 'store' and ev.get('op') == '|=' and ev['lhs'].get('k') == 'mem' and ev['lhs'].get('rec') == 'iauth_xquery_client' \
-                    and any(isinstance(x, dict) and x.get('k') == 'bin' and x.get('op') == '<<' for x in walk(ev.get('rhs') or {})):
+                    and any(isinstance(x, dict) and x.get('k') == 'bin' and x.get('op') == '<<' for x in walk(rhs_)):
                 masks.setdefault(ev['lhs']['field'], []).append(s)
     if not masks:
         raise AnalysisBroken('no per-client slot mask is set anywhere')
